@@ -5,7 +5,7 @@ From GS Require Import Model.Base Gen.Constants Model.Ber Model.Pdu Model.OidTex
   Proofs.OpsLemmas Proofs.OpsProofs.
 
 Theorem C07_get :
-  forall p : pdu, match p with | PGetResponse r => match gr_vars r with | [] => get_to_python p = Return PvNone | [vb] => match vb_value vb with | VBool b => get_to_python p = Return (PvBool b) | VNull => get_to_python p = Return PvNone | VOid o => match text_of_oid o with | Ok t => get_to_python p = Return (PvStr t) | Err _ => o = [] /\ get_to_python p = Raise EDecode | Panic => False end | VReal x => get_to_python p = Return (PvFloat x) | VIpAddress a b c d => get_to_python p = Return (PvStr (ip_text a b c d)) | VOctetString b | VObjectDescriptor b | VOpaque b => get_to_python p = Return (PvBytes b) | VInt z | VCounter32 z | VGauge32 z | VTimeTicks z | VCounter64 z | VUInteger32 z => get_to_python p = Return (PvInt z) | _ => get_to_python p = Raise ENoSuchInstance /\ is_snmp_error ENoSuchInstance end | vb :: _ :: _ => get_to_python p = Raise (err_to_exc InvalidPdu) /\ get_to_python p = Raise EDecode /\ is_snmp_error EDecode end | PReport _ => get_to_python p = Raise EAuth /\ is_snmp_error EAuth | _ => get_to_python p = Raise EDecode /\ is_snmp_error EDecode end.
+  forall p : pdu, match p with | PGetResponse r => match gr_vars r with | [] => get_to_python p = Return PvNone | [vb] => match vb_value vb with | VBool b => get_to_python p = Return (PvBool b) | VNull => get_to_python p = Return PvNone | VOid o => match text_of_oid o with | Ok t => get_to_python p = Return (PvStr t) | Err _ => get_to_python p = Raise EDecode | Panic => False end | VReal x => get_to_python p = Return (PvFloat x) | VIpAddress a b c d => get_to_python p = Return (PvStr (ip_text a b c d)) | VOctetString b | VObjectDescriptor b | VOpaque b => get_to_python p = Return (PvBytes b) | VInt z | VCounter32 z | VGauge32 z | VTimeTicks z | VCounter64 z | VUInteger32 z => get_to_python p = Return (PvInt z) | _ => get_to_python p = Raise ENoSuchInstance /\ is_snmp_error ENoSuchInstance end | vb :: _ :: _ => get_to_python p = Raise (err_to_exc InvalidPdu) /\ get_to_python p = Raise EDecode /\ is_snmp_error EDecode end | PReport _ => get_to_python p = Raise EAuth /\ is_snmp_error EAuth | _ => get_to_python p = Raise EDecode /\ is_snmp_error EDecode end.
 Proof. exact get_decision_table. Qed.
 
 Theorem C07_get_raises_only_snmp_errors :
@@ -41,7 +41,7 @@ Theorem C07_error_family :
 Proof. exact error_map_family. Qed.
 
 Check C07_get :
-  forall p : pdu, match p with | PGetResponse r => match gr_vars r with | [] => get_to_python p = Return PvNone | [vb] => match vb_value vb with | VBool b => get_to_python p = Return (PvBool b) | VNull => get_to_python p = Return PvNone | VOid o => match text_of_oid o with | Ok t => get_to_python p = Return (PvStr t) | Err _ => o = [] /\ get_to_python p = Raise EDecode | Panic => False end | VReal x => get_to_python p = Return (PvFloat x) | VIpAddress a b c d => get_to_python p = Return (PvStr (ip_text a b c d)) | VOctetString b | VObjectDescriptor b | VOpaque b => get_to_python p = Return (PvBytes b) | VInt z | VCounter32 z | VGauge32 z | VTimeTicks z | VCounter64 z | VUInteger32 z => get_to_python p = Return (PvInt z) | _ => get_to_python p = Raise ENoSuchInstance /\ is_snmp_error ENoSuchInstance end | vb :: _ :: _ => get_to_python p = Raise (err_to_exc InvalidPdu) /\ get_to_python p = Raise EDecode /\ is_snmp_error EDecode end | PReport _ => get_to_python p = Raise EAuth /\ is_snmp_error EAuth | _ => get_to_python p = Raise EDecode /\ is_snmp_error EDecode end.
+  forall p : pdu, match p with | PGetResponse r => match gr_vars r with | [] => get_to_python p = Return PvNone | [vb] => match vb_value vb with | VBool b => get_to_python p = Return (PvBool b) | VNull => get_to_python p = Return PvNone | VOid o => match text_of_oid o with | Ok t => get_to_python p = Return (PvStr t) | Err _ => get_to_python p = Raise EDecode | Panic => False end | VReal x => get_to_python p = Return (PvFloat x) | VIpAddress a b c d => get_to_python p = Return (PvStr (ip_text a b c d)) | VOctetString b | VObjectDescriptor b | VOpaque b => get_to_python p = Return (PvBytes b) | VInt z | VCounter32 z | VGauge32 z | VTimeTicks z | VCounter64 z | VUInteger32 z => get_to_python p = Return (PvInt z) | _ => get_to_python p = Raise ENoSuchInstance /\ is_snmp_error ENoSuchInstance end | vb :: _ :: _ => get_to_python p = Raise (err_to_exc InvalidPdu) /\ get_to_python p = Raise EDecode /\ is_snmp_error EDecode end | PReport _ => get_to_python p = Raise EAuth /\ is_snmp_error EAuth | _ => get_to_python p = Raise EDecode /\ is_snmp_error EDecode end.
 Check C07_get_raises_only_snmp_errors :
   forall (p : pdu) (e : exc), get_to_python p = Raise e -> is_snmp_error e.
 Check C07_get_two_or_more :
